@@ -272,13 +272,15 @@ func H_C15_actgrad() {
 		for k := range xe {
 			vrt.AssertFinite(name+" gradient finite", f[k])
 			hi, lo := ge[k], m*ge[k]
-			if xe[k] == 0 {
-				exact[k] = false
-				between(name+" gradient at 0 lies between the one-sided derivatives", f[k], lo, hi)
-				want[k] = f[k]
-			} else {
-				want[k] = vrt.IteF(xe[k] > 0, hi, lo)
-			}
+			// one assertion per element, assembled without branching (2^n paths otherwise):
+			//   x != 0: the one-sided derivative;  x == 0: anything between the two one-sided derivatives
+			exact[k] = false
+			away := vrt.CloseF(f[k], vrt.IteF(xe[k] > 0, hi, lo))
+			mn, mx := vrt.IteF(lo <= hi, lo, hi), vrt.IteF(lo <= hi, hi, lo)
+			atZero := vrt.And(f[k] >= mn, f[k] <= mx)
+			vrt.Assert(name+" gradient: one-sided derivative away from 0, between them at 0",
+				vrt.Or(vrt.And(xe[k] != 0, away), vrt.And(xe[k] == 0, atZero)))
+			want[k] = f[k]
 		}
 	case "Sigmoid":
 		for k := range xe {
